@@ -19,12 +19,23 @@ fn near(s: &mut Sink, r: &mut Rng, tag: &str, label: &str, base: &[u8], upto: us
     emit(s, format!("{tag} {}", hex(base)), label);
     for i in 0..upto.min(base.len()) {
         for &v in EDGE.iter() {
-            if thorough || r.chance(1, 3) {
+            let mut b = base.to_vec();
+            b[i] = v;
+            emit(s, format!("{tag} {}", hex(&b)), &format!("{label}-byte"));
+        }
+        // every single bit of the header region (a reserved-bit or mask check narrowed by one nibble)
+        for bit in 0..8 {
+            if thorough || base.len() <= 100 || r.chance(1, 2) {
                 let mut b = base.to_vec();
-                b[i] = v;
-                emit(s, format!("{tag} {}", hex(&b)), &format!("{label}-byte"));
+                b[i] ^= 1 << bit;
+                emit(s, format!("{tag} {}", hex(&b)), &format!("{label}-header-bit"));
             }
         }
+    }
+    // every prefix of the packet up to 120 bytes (a length guard weakened by a few bytes shows only when the
+    // bytes in front of it are well-formed)
+    for len in 0..=base.len().min(120) {
+        emit(s, format!("{tag} {}", hex(&base[..len])), &format!("{label}-prefix"));
     }
     for d in 1..=40usize {
         if base.len() >= d && (thorough || d <= 8 || r.chance(1, 4)) {
